@@ -252,7 +252,7 @@ void Run::setup_world() {
   for (auto &e : cfg.env) W.env[e.first] = e.second;
 }
 
-static std::string servers_csv(const std::vector<ServerSpec> &all, const std::vector<int> &idx) {
+std::string servers_csv(const std::vector<ServerSpec> &all, const std::vector<int> &idx) {
   std::string csv;
   for (int i : idx) {
     const ServerSpec &s = all[(size_t)i];
@@ -263,7 +263,7 @@ static std::string servers_csv(const std::vector<ServerSpec> &all, const std::ve
       if (s.udp_port != 53 || v6) csv += ":" + std::to_string(s.udp_port);
       if (!s.iface.empty()) csv += "%" + s.iface;
     } else {
-      csv += "dns://" + (v6 ? "[" + s.ip + (s.iface.empty() ? "" : "%25" + s.iface) + "]" : s.ip) + ":" + std::to_string(s.udp_port) + "?tcpport=" + std::to_string(s.tcp_port);
+      csv += "dns://" + (v6 ? "[" + s.ip + (s.iface.empty() ? "" : "%" + s.iface) + "]" : s.ip) + ":" + std::to_string(s.udp_port) + "?tcpport=" + std::to_string(s.tcp_port);
     }
   }
   return csv;
@@ -341,6 +341,25 @@ bool Run::make_channel(int idx) {
     int r2 = ares_set_servers_ports_csv(c.ch, csv.c_str());
     if (r2 != ARES_SUCCESS) note("set_servers_failed");
   }
+  if ((cfg.server_source == 3 || cfg.server_source == 4) && !cfg.servers.empty()) {
+    // the two node-list encodings (addresses only / addresses with per-protocol ports)
+    W.api_seq++;
+    std::vector<struct ares_addr_node> an(active.size());
+    std::vector<struct ares_addr_port_node> apn(active.size());
+    for (size_t i = 0; i < active.size(); i++) {
+      const ServerSpec &sv = cfg.servers[(size_t)active[i]];
+      bool v6 = sv.ip.find(':') != std::string::npos;
+      memset(&an[i], 0, sizeof an[i]); memset(&apn[i], 0, sizeof apn[i]);
+      an[i].family = apn[i].family = v6 ? AF_INET6 : AF_INET;
+      if (v6) { inet_pton(AF_INET6, sv.ip.c_str(), &an[i].addr.addr6); memcpy(&apn[i].addr.addr6, &an[i].addr.addr6, 16); }
+      else { inet_pton(AF_INET, sv.ip.c_str(), &an[i].addr.addr4); memcpy(&apn[i].addr.addr4, &an[i].addr.addr4, 4); }
+      apn[i].udp_port = sv.udp_port == 53 ? 0 : sv.udp_port; apn[i].tcp_port = sv.tcp_port == 53 ? 0 : sv.tcp_port;
+      an[i].next = i + 1 < active.size() ? &an[i + 1] : nullptr;
+      apn[i].next = i + 1 < active.size() ? &apn[i + 1] : nullptr;
+    }
+    int r2 = cfg.server_source == 3 ? ares_set_servers(c.ch, an.data()) : ares_set_servers_ports(c.ch, apn.data());
+    if (r2 != ARES_SUCCESS) note("set_servers_failed");
+  }
   if (!cfg.sortlist.empty()) ares_set_sortlist(c.ch, cfg.sortlist.c_str());
   if (idx == 0) read_effective();
   return true;
@@ -401,6 +420,7 @@ void Run::set_servers_variant(int variant) {
   W.mix_shape(0x5E70 + (changed ? 1 : 0));
   if (rc == ARES_SUCCESS) {
     active = nw;
+    user_set_servers = true;
     if ((int)active.size() > max_active) max_active = (int)active.size();
     srv_list_events.push_back({W.now_us, set_changed ? 1 : (changed ? 3 : 0), W.seq});
   } else note("set_servers_failed");
@@ -412,7 +432,7 @@ void Run::do_reinit(int chan) {
   W.api_seq++;
   note("reinit");
   int rc = ares_reinit(c.ch);
-  if (rc == ARES_SUCCESS) srv_list_events.push_back({W.now_us, 2, W.seq});
+  if (rc == ARES_SUCCESS) { srv_list_events.push_back({W.now_us, 2, W.seq}); files_changed_since_init = false; }
   read_effective();
 }
 
